@@ -415,7 +415,7 @@ def run_resuming(rep, name, exe, lines, metas, env=None, timeout=300, pid="C10")
     crashes = 0
     while start < len(lines):
         path = vlib.write_cases(lines[start:], name + ".cases")
-        rc, got, err = vlib.run_exe(exe, path, timeout=timeout, env=env)
+        rc, got, err = vlib.run_exe(exe, path, timeout=max(timeout, 300 + (len(lines) - start) // 2), env=env)
         for k, l in enumerate(got[:len(lines) - start]):
             out[start + k] = l
         if rc == 0 and len(got) >= len(lines) - start:
@@ -429,6 +429,15 @@ def run_resuming(rep, name, exe, lines, metas, env=None, timeout=300, pid="C10")
             break
         k = start + min(len(got), len(lines) - start - 1)
         meta = metas[k]
+        if rc == 124:
+            # the batch ran out of time: the case it happened to be working on is a hang only if it also runs out
+            # of time on its own
+            rc1, got1, err1 = vlib.run_exe(exe, vlib.write_cases([lines[k]], name + "-one.cases"), timeout=timeout, env=env)
+            if rc1 == 0 and got1:
+                out[k] = got1[0]
+                start = k + 1
+                continue
+            rc, err = rc1, err1
         summ = [l for l in err.split("\n") if "ERROR: " in l or "SUMMARY" in l or "runtime error" in l or "TIMEOUT" in l]
         ckey = ("%s:%s:crash-%s-%s" % (pid, meta["fmt"], meta["field"], meta["desc"])) if pid == "C10" else \
                ("%s:%s:crash:%s" % (pid, meta["fmt"], vlib.crash_key(err)))
